@@ -231,10 +231,11 @@ Bounded == \A o \in Owners : bal[o] <= MaxBal
 (* (a ghost variable, rebuilt only from the outcomes of the invocations):  *)
 (*   g.live[c]  descriptor of the live container c or "none"               *)
 (*   g.eacl[c]  last table set, g.alias[c] last name set                   *)
-(*   g.dead     ids deleted so far, g.names[c] every name c ever carried   *)
+(*   g.dead     ids deleted so far, g.names[c] every name c ever carried,  *)
+(*   g.last[c]  the alias c had when it was deleted                        *)
 (***************************************************************************)
 GInit == [live |-> [c \in Cids |-> None], eacl |-> [c \in Cids |-> None], alias |-> [c \in Cids |-> None],
-          dead |-> {}, names |-> [c \in Cids |-> {}]]
+          dead |-> {}, names |-> [c \in Cids |-> {}], last |-> [c \in Cids |-> None]]
 
 GNext(g, e) ==
   IF e.res # "HALT" THEN g
@@ -243,7 +244,8 @@ GNext(g, e) ==
                  !.alias[e.c] = IF e.nm # Nil THEN e.nm ELSE @,
                  !.names[e.c] = IF e.nm # Nil THEN @ \cup {e.nm} ELSE @]
   ELSE IF e.act = "delete" /\ g.live[e.c] # None
-  THEN [g EXCEPT !.live[e.c] = None, !.eacl[e.c] = None, !.alias[e.c] = None, !.dead = @ \cup {e.c}]
+  THEN [g EXCEPT !.live[e.c] = None, !.eacl[e.c] = None, !.alias[e.c] = None, !.dead = @ \cup {e.c},
+                 !.last[e.c] = g.alias[e.c]]
   ELSE IF e.act = "setEACL"
   THEN [g EXCEPT !.eacl[e.c] = e.v]
   ELSE g
@@ -269,9 +271,12 @@ C04_Count(g2) == api'.count = Cardinality(Live(g2))
 C04_Final(g, e) == e.act = "put" /\ e.c \in g.dead => e.res = "FAULT"
 \* every trace of a deleted container is gone: blob, owner index, eACL, alias and the NNS record of every name
 \* it carried, meta flag (raw storage of the Container contract + NNS records)
-C04_NoTrace(g2) ==
-  \A c \in g2.dead : /\ x'[c] = None /\ c \notin oidx' /\ eacl'[c] = None /\ alias'[c] = None /\ c \notin meta'
-                     /\ \A nm \in g2.names[c] : ~InSeq(c, txt'[nm])
+NoRawTrace(g2) == \A c \in g2.dead : x'[c] = None /\ c \notin oidx' /\ eacl'[c] = None /\ alias'[c] = None /\ c \notin meta'
+StaleRecords(g2) == {p \in g2.dead \X Names : p[2] \in g2.names[p[1]] /\ InSeq(p[1], txt'[p[2]])}
+C04_NoTrace(g2) == NoRawTrace(g2) /\ StaleRecords(g2) = {}
+\* deviation tag: the only traces left are TXT records under names the container carried before its last alias
+OnlyFormerAliasRecords(g2) == /\ NoRawTrace(g2) /\ StaleRecords(g2) # {}
+                              /\ \A p \in StaleRecords(g2) : p[2] # g2.last[p[1]]
 \* exactly one PutSuccess / DeleteSuccess / SetEACLSuccess per successful put / delete / setEACL, none otherwise
 \* (a HALTing delete of a missing container deletes nothing: the statement allows both zero and one notification)
 C04_Notif(g, e) ==
